@@ -404,6 +404,28 @@ PROPS = {
              "bound": "the generated text constant of VSpec", "timeout": 200, "must_cover": ["c19_text_constant_end"]},
         ],
     },
+    "C20": {
+        "driver": "c20",
+        "files": ["a2lfile/src/specification.rs", "a2lfile/src/specification_orig.rs", "a2lmacros/src/lib.rs", "a2lmacros/src/a2lspec.rs", "a2lmacros/src/codegenerator.rs",
+                  "a2lmacros/src/codegenerator/parser.rs", "a2lmacros/src/codegenerator/writer.rs", "a2lmacros/src/codegenerator/data_structure.rs"],
+        "trusted": T_STD + ["rustfmt and proc_macro2's fallback implementation (the in-tree generator is run as a test of the scratch copy of a2lmacros, outside the compiler)",
+                            "the hand-written head and tail of specification_orig.rs are used unchanged for the second build"],
+        "assumptions": ["relational claim over the inputs of the observation harnesses only: one MEASUREMENT with symbolic version / data type / optional element / hex digits / strictness; the repository's sample document and the all-kinds module (load, write, sort, sort_new_items); 13 fault kinds x 2 layouts x 2 modes; unknown elements at 17 positions inside real blocks x 2 modes; check + merge + cleanup on the merge template",
+                        "observations compared: load result, number of diagnostics, line of the first diagnostic / of the error, length of the error text, the written text byte for byte",
+                        "the proc-macro glue in a2lmacros/src/lib.rs is not part of the second build (the generator function behind it is)"],
+        "jobs": [
+            {"engine": "E2", "module": "lib", "harness": "h_c20_measurement", "functions": ["specification::Measurement::parse / stringify", "specification::{A2lFile,Project,Module}::parse / stringify", "specification::{DataType,AddrType,ByteOrderEnum,IndexOrder}::parse", "parser::ParserState::check_block_version_*", "load_from_string", "A2lFile::write_to_string"],
+             "bound": "6 file versions x 4 data type keywords x 9 optional elements x 2 symbolic hex digits over '09afAFg' x symbolic strictness", "timeout": 600, "extra_modules": ["tokenizer"], "max_steps": 4000000, "validate": 12},
+            {"engine": "E2", "module": "lib", "harness": "h_c20_documents", "functions": ["specification::*::parse / stringify of every element kind in the sample document and in the all-kinds module", "A2lFile::sort", "A2lFile::sort_new_items"],
+             "bound": "sample document strict / non-strict; all-kinds module load, write, sort, write, sort_new_items, write (3 concrete paths)", "timeout": 900, "extra_modules": ["tokenizer"], "max_steps": 80000000, "validate": 3},
+            {"engine": "E2", "module": "lib", "harness": "h_c20_faults", "functions": ["specification::Measurement::parse", "parser::ParserState::error_or_log", "load_from_string"],
+             "bound": "13 fault kinds x 2 layouts x strict / non-strict (52 documents)", "timeout": 400, "extra_modules": ["tokenizer"], "max_steps": 4000000, "validate": 10},
+            {"engine": "E2", "module": "lib", "harness": "h_c20_unknown_elements", "functions": ["specification::{RecordLayout,Measurement,Characteristic,AxisDescr,CompuMethod,Module}::parse (TAG_LISTs)", "parser::ParserState::handle_unknown_taggedstruct_tag"],
+             "bound": "3 unknown payloads x every insertion point of the C07 document x strict / non-strict", "timeout": 600, "extra_modules": ["tokenizer"], "max_steps": 6000000, "validate": 10},
+            {"engine": "E2", "module": "lib", "harness": "h_c20_module_ops", "functions": ["A2lFile::check", "A2lFile::merge_modules", "A2lFile::cleanup", "generated PartialEq / A2lObjectName impls"],
+             "bound": "merge template merged with a renamed copy of itself, then cleanup (1 concrete path)", "timeout": 600, "extra_modules": ["tokenizer"], "max_steps": 80000000, "validate": 1},
+        ],
+    },
     "C18": {
         "files": ["a2lfile/src/a2ml.rs", "a2lfile/src/ifdata.rs", "a2lfile/src/specification.rs", "a2lfile/src/lib.rs", "a2lfile/src/tokenizer.rs"],
         "trusted": T_STD,
